@@ -48,7 +48,9 @@ impl rustc_driver::Callbacks for Cb {
         let Ok(out_dir) = std::env::var("ECLI_OUT") else {
             return rustc_driver::Compilation::Continue;
         };
-        let facts = dump_crate(tcx, &krate);
+        let facts = rustc_middle::ty::print::with_no_visible_paths!(
+            rustc_middle::ty::print::with_no_trimmed_paths!(dump_crate(tcx, &krate))
+        );
         let mut s = String::with_capacity(1 << 22);
         facts.write(&mut s);
         let is_test = tcx.sess.opts.test;
